@@ -104,11 +104,17 @@ pub fn run(args: &Args) -> Report {
         let bufs: &[(usize, usize)] = if thorough { &[(1, 1), (2, 2)] } else { &[(1, 1)] };
         for &(sb, db) in bufs {
             for both in if thorough { vec![false, true] } else { vec![true] } {
-                let cfg = XferCfg { a, b, cap: 0, streams: streams(n, both), stream_buffer: sb, one_byte_frames: false, dgram_pingpong: 2, dgram_buffer: db, drop_mux_when_writers_done: None, horizon: 20_000 };
+                let cfg = XferCfg { a, b, cap: 0, streams: streams(n, both), stream_buffer: sb, one_byte_frames: false, dgram_pingpong: 2, dgram_buffer: db, drop_mux_when_writers_done: None, extra: xfer::XferExtra::NONE, horizon: 20_000 };
                 let label = format!("{} | stream_buffer={sb} datagram_buffer={db} | {}", if both { "both directions" } else { "one direction" }, cfg.describe());
                 cases.push(Case { try_unbounded: false, max_k: u32::MAX, label, exec: Box::new(move |r| xfer::exec(&cfg, &or, r)) });
             }
         }
+    }
+    // datagrams that nobody takes out (more than the datagram buffer holds) delay nothing else
+    for (a, b, db) in [((2u32, 1u32), (2u32, 1u32), 1usize), ((4, 8), (1, 1), 2)] {
+        let cfg = XferCfg { a, b, cap: 0, streams: streams(2 * a.0.max(b.0) as usize + 3, true), stream_buffer: 1, one_byte_frames: false, dgram_pingpong: 0, dgram_buffer: db, drop_mux_when_writers_done: None, extra: xfer::XferExtra { dgram_flood: db + 2, rng_a: &[], rng_b: &[] }, horizon: 20_000 };
+        let label = format!("datagrams nobody reads | datagram_buffer={db} | {}", cfg.describe());
+        cases.push(Case { try_unbounded: false, max_k: u32::MAX, label, exec: Box::new(move |r| xfer::exec(&cfg, &or, r)) });
     }
     // the smallest drivers: every interleaving modulo commutation (sleep sets); every reachable quiescent state is judged
     for (a, b) in [((1u32, 1u32), (1u32, 1u32)), ((1, 3), (1, 1)), ((2, 32), (1, 4))] {
@@ -118,7 +124,7 @@ pub fn run(args: &Args) -> Report {
             opener_plan: EndPlan::Seq(vec![Op::Burst(3, 1), Op::Shutdown, Op::ReadToEof(4)]),
             acceptor_plan: EndPlan::Seq(vec![Op::ReadToEof(4), Op::W(1), Op::Shutdown]),
         }];
-        let cfg = XferCfg { a, b, cap: 0, streams: st, stream_buffer: 1, one_byte_frames: false, dgram_pingpong: 0, dgram_buffer: 1, drop_mux_when_writers_done: None, horizon: 20_000 };
+        let cfg = XferCfg { a, b, cap: 0, streams: st, stream_buffer: 1, one_byte_frames: false, dgram_pingpong: 0, dgram_buffer: 1, drop_mux_when_writers_done: None, extra: xfer::XferExtra::NONE, horizon: 20_000 };
         let label = format!("tiny, all interleavings | {}", cfg.describe());
         cases.push(Case { try_unbounded: true, max_k: 1, label, exec: Box::new(move |r| xfer::exec(&cfg, &or, r)) });
     }
@@ -127,7 +133,7 @@ pub fn run(args: &Args) -> Report {
     // polls it under `block_on` / in a `select!` / on another executor, polls it OUTSIDE a spawned tokio task, and what
     // its instrumentation evaluates when spans are enabled must not stop it.
     for (a, b) in [((2u32, 1u32), (2u32, 1u32)), ((1, 3), (4, 8))] {
-        let cfg = XferCfg { a, b, cap: 0, streams: streams(2 * a.0.max(b.0) as usize + 3, true), stream_buffer: 1, one_byte_frames: false, dgram_pingpong: 2, dgram_buffer: 1, drop_mux_when_writers_done: None, horizon: 20_000 };
+        let cfg = XferCfg { a, b, cap: 0, streams: streams(2 * a.0.max(b.0) as usize + 3, true), stream_buffer: 1, one_byte_frames: false, dgram_pingpong: 2, dgram_buffer: 1, drop_mux_when_writers_done: None, extra: xfer::XferExtra::NONE, horizon: 20_000 };
         let label = format!("every tracing span and event enabled | {}", cfg.describe());
         cases.push(Case {
             try_unbounded: false,
